@@ -37,8 +37,12 @@ RULES = {
     "file with os.replace, and only as an element of a collection selected by file identity (a filter that reaches os.path.samefile) - "
     "never by comparing names: `os.path.normpath(t.location) == os.path.normpath(relative_path)` also matches a file of the same name in "
     "another directory, whose bytes nobody touched, and misses the same file reached through a link",
+    "R10": "the temporary file has a name: its path is `join(<temporary directory>, basename(<destination>))`, and a destination without a "
+    "base name ('' or 'dir/') is refused before the temporary directory is created - otherwise the temporary path is the directory "
+    "itself, opening it fails, the cleanup's os.remove fails on it with an error other than FileNotFoundError and the temporary "
+    "directory is left behind next to the data",
 }
-FLOORS = {"R1": 5, "R2": 2, "R3": 4, "R4": 3, "R5": 1, "R6": 1, "R7": 1, "R8": 12, "R9": 1}
+FLOORS = {"R1": 5, "R2": 2, "R3": 4, "R4": 3, "R5": 1, "R6": 1, "R7": 1, "R8": 12, "R9": 1, "R10": 1}
 EXPLANATION = (
     "Path-taint analysis (temp-derived vs destination-derived) over every file-system call of the single-file "
     "writer, dominator queries for the write → replace → invalidate ordering, try/finally structure of the "
@@ -596,7 +600,52 @@ def rule_r9(ctx):
     ctx.require(n >= 1, "no invalidate() call found outside the tensor class")
 
 
+def rule_r10(ctx):
+    f = ctx.repo.func("onnx_ir.external_data:_write_external_data")
+    cfg = CFG(f.node)
+    mk = [c for c in calls_in(f) if (dotted_of(c.func) or "") == "tempfile.mkdtemp"]
+    ctx.require(len(mk) == 1, "_write_external_data: tempfile.mkdtemp call not found")
+    # the temporary path and the expression whose base name it takes
+    def unlocal(x):
+        # a local bound once stands for its expression (`_base = os.path.basename(dest)`)
+        if isinstance(x, ast.Name):
+            bs = [a.value for a in own_nodes(f.node) if isinstance(a, ast.Assign) and any(isinstance(t, ast.Name) and t.id == x.id for t in a.targets)]
+            if len(bs) == 1:
+                return bs[0]
+        return x
+
+    def is_base(x):
+        x = unlocal(x)
+        return isinstance(x, ast.Call) and (dotted_of(x.func) or "") == "os.path.basename" and bool(x.args)
+
+    joins = [a for a in own_nodes(f.node) if isinstance(a, ast.Assign) and isinstance(a.value, ast.Call) and (dotted_of(a.value.func) or "") == "os.path.join"
+             and any(is_base(x) for x in a.value.args)]
+    ctx.require(bool(joins), "_write_external_data: the temporary path is not join(<dir>, basename(<destination>))")
+    based = {norm(unlocal(x).args[0]) for a in joins for x in a.value.args if is_base(x)}
+    mn = cfg.nodes_containing(mk[0])[0]
+    ok = False
+    for iff in (x for x in own_nodes(f.node) if isinstance(x, ast.If) and x.body and isinstance(x.body[-1], ast.Raise)):
+        t = iff.test
+        neg = isinstance(t, ast.UnaryOp) and isinstance(t.op, ast.Not)
+        inner = t.operand if neg else t
+        inner = unlocal(inner)
+        is_basename = isinstance(inner, ast.Call) and (dotted_of(inner.func) or "") == "os.path.basename" and inner.args and norm(inner.args[0]) in based
+        empty_cmp = isinstance(t, ast.Compare) and len(t.ops) == 1 and isinstance(t.ops[0], ast.Eq) and any(
+            isinstance(x, ast.Call) and (dotted_of(x.func) or "") == "os.path.basename" and x.args and norm(x.args[0]) in based for x in (t.left, t.comparators[0])) and any(
+            isinstance(x, ast.Constant) and x.value == "" for x in (t.left, t.comparators[0]))
+        if (neg and is_basename) or empty_cmp:
+            tn = [x for x in cfg.node_of(iff) if x.kind == "test"]
+            if tn and cfg.dominates(tn[0], mn):
+                ok = True
+    ctx.check("R10", "_write_external_data: a destination without a base name is refused before the temporary directory exists", ok, f, mk[0],
+              f"the temporary path is `{norm(joins[0].value)[:70]}` and nothing refuses a destination whose base name is empty before `tempfile.mkdtemp`: for 'dir/' (or '') the "
+              "temporary path is the temporary directory itself - the write fails, `os.remove` in the cleanup fails on a directory with an error that is not suppressed, and the "
+              "temporary directory stays behind",
+              how="a rejection on `not os.path.basename(<destination>)` dominates tempfile.mkdtemp", construct="temporary file without a name")
+
+
 def run(ctx):
+    rule_r10(ctx)
     rule_r9(ctx)
     rule_r8(ctx)
     rule_r7(ctx)
